@@ -26,6 +26,7 @@ struct WorkerSlot { volatile int scenario; volatile int nchoices; int choices[40
 struct Shared {
     volatile int next_unit; volatile int nvio; VioSlot vio[128]; WorkerSlot ws[64]; volatile int stop; volatile uint64_t divergences; volatile int planner_pos;
     char samples[6][1500]; volatile int nsamples;
+    volatile int pass_done[12], pass_total[12];   // iterative deviation bound: units finished / planned per pass
 };
 static Shared* SH; static SharedSet STATES, OUTCOMES; static ScStat* SCST; static volatile uint64_t* REACT;   // per scenario: hash of the first reaction signature (C19 chunking independence)
 
@@ -45,12 +46,14 @@ static std::vector<Scenario> SCN;
 static double g_deadline = 0;
 static int g_slot = -1;
 
-static bool run_one(int scn, const std::vector<int>& prefix, Exec& out, bool sample) {
+static bool run_one(int scn, const std::vector<int>& prefix, Exec& out, bool sample, bool count = true) {
     if (g_slot >= 0) { WorkerSlot& w = SH->ws[g_slot]; w.scenario = scn; w.nchoices = int(std::min<size_t>(prefix.size(), 400)); for (int i = 0; i < w.nchoices; ++i) w.choices[i] = prefix[i]; w.busy = 1; }
     World w(SCN[scn]); w.run(prefix);
     if (g_slot >= 0) SH->ws[g_slot].busy = 0;
     ScStat& st = SCST[scn];
     if (w.capped && w.cap_reason.rfind("REPLAY", 0) == 0) { __sync_fetch_and_add(&SH->divergences, 1); Vio v{"HARNESS:replay-divergence:" + SCN[scn].name, w.cap_reason}; record_violation(scn, v, w.choices); return false; }
+    out.pts.clear(); for (auto& c : w.choices) out.pts.emplace_back(c.n, c.dev);
+    if (!count) return true;   // re-execution of a shallower node in a deeper pass: it was judged and counted in its own pass
     __sync_fetch_and_add(&st.execs, 1); __sync_fetch_and_add(&st.points, w.choices.size()); __sync_fetch_and_add(&st.transitions, w.trace.size());
     if (w.capped) __sync_fetch_and_add(&st.capped, 1);
     for (auto& c : w.choices) STATES.insert(c.digest);
@@ -65,7 +68,6 @@ static bool run_one(int scn, const std::vector<int>& prefix, Exec& out, bool sam
     }
     if (!w.vios.empty()) __sync_fetch_and_add(&st.vio_execs, 1);
     for (auto& v : w.vios) record_violation(scn, v, w.choices);
-    out.pts.clear(); for (auto& c : w.choices) out.pts.emplace_back(c.n, c.dev);
     if (sample && w.deviations > 0) { int k = __sync_fetch_and_add(&SH->nsamples, 1); if (k < 6) {
         std::string s = "{\"scenario\":" + rep::jstr(SCN[scn].name) + ",\"choices\":["; for (size_t i = 0; i < w.choices.size(); ++i) { if (i) s += ","; s += std::to_string(w.choices[i].chosen); }
         s += "],\"deviations\":["; bool f = true; for (auto& c : w.choices) if (c.dev) { if (!f) s += ","; f = false; s += rep::jstr(c.what); } s += "],\"wire\":[";
@@ -75,9 +77,12 @@ static bool run_one(int scn, const std::vector<int>& prefix, Exec& out, bool sam
 }
 
 // DFS below `prefix` with deviation bound D
+// Pass D of the iterative bound: executions with exactly D deviations are judged and counted; shallower nodes are only
+// re-executed to learn their choice points (they were judged in their own pass).
 static void dfs(int scn, std::vector<int> prefix, int D, uint64_t& counter) {
     if (SH->stop || (g_deadline > 0 && wall_now() > g_deadline)) { SH->stop = 1; return; }
-    Exec ex; if (!run_one(scn, prefix, ex, (counter++ % 977) == 5)) return;
+    int pdevs = 0; for (int c : prefix) if (c != 0) pdevs++;    // every non-default choice in a prefix is a deviation
+    Exec ex; if (!run_one(scn, prefix, ex, (counter++ % 977) == 5, pdevs == D)) return;
     int devs = 0; for (size_t i = 0; i < prefix.size() && i < ex.pts.size(); ++i) if (ex.pts[i].second) devs++;
     for (size_t i = prefix.size(); i < ex.pts.size(); ++i) {
         if (devs + 1 > D) break;
@@ -85,7 +90,7 @@ static void dfs(int scn, std::vector<int> prefix, int D, uint64_t& counter) {
     }
 }
 
-struct Unit { int scn; std::vector<int> prefix; int D; };
+struct Unit { int scn; std::vector<int> prefix; int D; };   // D = pass number (deviation bound of this pass); 0 = the default execution
 
 static int replay_file(const char* path, const std::string& set, int tier) {
     FILE* f = fopen(path, "r"); if (!f) { fprintf(stderr, "cannot open %s\n", path); return 2; }
@@ -131,7 +136,7 @@ int main(int argc, char** argv) {
     rep::Report R;
     // determinism self-test + unit generation from the default executions. They run in a forked planner so that a
     // default schedule that kills the process (C19) is attributed to its scenario instead of taking the explorer down.
-    std::vector<Unit> units;
+    std::vector<Unit> units, roots;
     {
         std::string planfile = std::string(out ? out : "/tmp/simnet") + ".plan";
         size_t start = 0; int planner_deaths = 0;
@@ -161,14 +166,20 @@ int main(int argc, char** argv) {
         FILE* f = fopen(planfile.c_str(), "r"); char line[8192];
         while (f && fgets(line, sizeof line, f)) { if (line[0] != 'S') continue; char* p = line + 2; size_t i = strtoul(p, &p, 10); std::vector<int> ns; while (*p && *p != '\n') { int n = int(strtol(p, &p, 10)); if (n > 0) ns.push_back(n); else break; }
             units.push_back({int(i), {}, 0});
-            if (SCN[i].D >= 1) for (size_t q = 0; q < ns.size(); ++q) for (int alt = 1; alt < ns[q]; ++alt) { std::vector<int> pre(q, 0); pre.push_back(alt); units.push_back({int(i), pre, SCN[i].D}); } }
+            if (SCN[i].D >= 1) for (size_t q = 0; q < ns.size(); ++q) for (int alt = 1; alt < ns[q]; ++alt) { std::vector<int> pre(q, 0); pre.push_back(alt); roots.push_back({int(i), pre, SCN[i].D}); } }
         if (f) fclose(f); unlink(planfile.c_str());
     }
-    // order: all D<=1 work of all scenarios is implied by the unit roots; deeper work hangs below them
+    // iterative deviation bound: pass b explores, for every scenario with D >= b, the executions with exactly b deviations;
+    // all of pass b is queued before pass b+1, so that under a deadline the largest completed bound can be stated
+    int maxD = 0; for (auto& s : SCN) maxD = std::max(maxD, std::min(s.D, 11));
+    SH->pass_total[0] = int(units.size());
+    for (int b = 1; b <= maxD; ++b) for (auto& r : roots) if (r.D >= b) { units.push_back({r.scn, r.prefix, b}); SH->pass_total[b]++; }
+    roots.clear(); roots.shrink_to_fit();
     std::vector<pid_t> pids(workers);
     auto spawn = [&](int w) { pid_t p = fork(); if (p == 0) { g_slot = w; uint64_t counter = w * 131;
             for (;;) { int k = __sync_fetch_and_add(&SH->next_unit, 1); if (k >= int(units.size()) || SH->stop) break; Unit& u = units[k];
-                if (u.prefix.empty()) { Exec ex; run_one(u.scn, {}, ex, true); } else dfs(u.scn, u.prefix, u.D, counter); }
+                if (u.prefix.empty()) { Exec ex; run_one(u.scn, {}, ex, true); } else dfs(u.scn, u.prefix, u.D, counter);
+                if (!SH->stop) __sync_fetch_and_add(&SH->pass_done[u.D], 1); }
             _exit(0); } pids[w] = p; };
     for (int w = 0; w < workers; ++w) spawn(w);
     int crashes = 0;
@@ -192,6 +203,8 @@ int main(int argc, char** argv) {
     R.rule = "set " + set + ": every execution reachable with at most D deviations (faults/reorderings/injections, D per scenario in notes) from the canonical default schedule of each scenario, "
              "each executed on the real mqtt_client in a fresh simulated world; states = distinct world-state digests at choice points; distinct_nontrivial = distinct outcomes (wire trace + handler results)";
     R.note("scenarios", per); R.note_num("choice_points", points); R.note_num("executions_capped", capped); R.note_num("units", units.size()); R.note_num("worker_crashes", crashes);
+    { int done_b = -1; std::string pj = "["; for (int b = 0; b <= maxD; ++b) { if (b) pj += ","; pj += "{\"deviations\":" + std::to_string(b) + ",\"units_done\":" + std::to_string(SH->pass_done[b]) + ",\"units\":" + std::to_string(SH->pass_total[b]) + "}"; if (done_b == b - 1 && SH->pass_done[b] == SH->pass_total[b]) done_b = b; }
+      pj += "]"; R.note("passes", pj); R.note_num("deviation_bound_completed_for_all_scenarios", uint64_t(std::max(done_b, 0))); R.note_num("deviation_bound_max", uint64_t(maxD)); }
     R.note("deadline_hit", timed_out ? "true" : "false"); R.note_num("wall_s", uint64_t(wall_now() - t0));
     for (int i = 0; i < SH->nvio && i < 128; ++i) { VioSlot& v = SH->vio[i];
         std::string rj = "{\"kind\":\"simnet\",\"set\":" + rep::jstr(set) + ",\"tier\":" + std::to_string(tier) + ",\"scenario\":" + rep::jstr(SCN[v.scenario].name) + ",\"choices\":[";
